@@ -436,6 +436,10 @@ func c17Gen(g *G) {
 		}
 		return c17Codes[g.R.Intn(len(c17Codes))]
 	}
+	// two clients in one process, then the decisions of tryToProcessErr through the whole request path
+	// (MakeRequest against scripted peers)
+	c17TwoGen(g, code)
+	c17MigGen(g, code)
 	rows := append([]c17Row{}, c17F.Rows...)
 	// the specification's families too, so that a row removed from the source is still exercised
 	for _, r := range c17SpecRows {
@@ -636,6 +640,9 @@ func c17Exec(op []string) string {
 	if len(op) > 0 && op[0] == "c17.rpc" {
 		return c17Rpc(op)
 	}
+	if out, ok := c17MigExec(op); ok {
+		return out
+	}
 	unhex := func(s string) []byte {
 		if s == "-" {
 			return nil
@@ -713,6 +720,9 @@ func c17Judge(op []string, out string) string {
 	c17LoadFacts()
 	if len(op) < 2 {
 		return ""
+	}
+	if (op[0] == "c17.req" && len(op) == 4) || ((op[0] == "c17.req2" || op[0] == "c17.two") && len(op) == 6) {
+		return c17MigJudge(op, out)
 	}
 	if op[0] == "c17.atoi" || op[0] == "c17.sprintf" {
 		return "" // library models: compared with the Lean model only
